@@ -203,6 +203,23 @@ def check(ctx):
         for t in replay(hs, sub, 0):
             t["ref"] = idx[t["ref"]]
             objs.append(t)
+    # every ordered pair (A, B) of one family: A is constructed, then B is constructed (and, in a
+    # second history, partly iterated), and only then is A iterated - constructor-time shared state
+    npair = 0
+    for fam, idx in sorted(fams.items()):
+        sub = [cfgs[i] for i in idx]
+        hs = []
+        for a in range(len(sub)):
+            for b in range(len(sub)):
+                if a != b:
+                    hs.append([[1, a + 1], [1, b + 1]] + [[2, 1]] * 40)
+                    if q and (a + b) % 3:
+                        continue
+                    hs.append([[1, a + 1], [1, b + 1]] + [[2, 2]] * 10 + [[2, 1]] * 40)
+        npair += len(hs)
+        for t in replay(hs, sub, 0):
+            t["ref"] = idx[t["ref"]]
+            objs.append(t)
     twins = [i for i, c in enumerate(cfgs) if c["cls"] == "TwoLevel"][:2] + [i for i, c in enumerate(cfgs) if c["cls"] == "Multistage"][:1]
     ntwin = 0
     for i in twins:
@@ -242,7 +259,7 @@ def check(ctx):
            "exhaustive_box": f"2 configurations, 2 objects, depth {5 if q else 6}, 2 helper calls",
            "histories_simulated": len(sim), "simulated_depth": 60,
            "histories_observer_reads_every_configuration": len(obsh),
-           "histories_simulated_per_class_family": nsub, "histories_two_objects_one_configuration": ntwin,
+           "histories_simulated_per_class_family": nsub, "histories_ordered_pairs_per_family": npair, "histories_two_objects_one_configuration": ntwin,
            "samples": [{"history": ex[len(ex) // 2]}, {"history": sim[0][:25]}],
            "exhaustive": True,
            "rule": "every object stream of every history compared with the reference stream of its "
